@@ -1234,7 +1234,7 @@ mod $name {
         // the (expensive) well-formedness check only on complexes with at most WF_LIMIT vertices — same rule in the driver
         let w = if c.nverts() <= WF_LIMIT { (wf(c) as u8).to_string() } else { "-".to_string() };
         let head = format!("nv={} ne={} wf={} h={}", c.nverts(), nedges(c), w, fnv(&txt));
-        if txt.len() <= TEXT_LIMIT { format!("{} {}", head, txt) } else { head }
+        if txt.len() <= TEXT_LIMIT || std::env::var("C05_FULLTEXT").is_ok() { format!("{} {}", head, txt) } else { head }
     }
     /// circles that may be delooped now.  A circle through the base point (reduced theory) is only delooped at the very
     /// end (`based = true`), as `TngComplexBuilder` does (`deloop_in(i, allow_based = false)` while crossings are
@@ -1254,6 +1254,23 @@ mod $name {
             for l in ls { if c.edge(&k, &l).is_invertible() { out.push((k, l)); } }
         }
         out
+    }
+    /// one of the factors `b : l0 → k1`, `c : k0 → l1` that `eliminate(k0, k1)` stacks has a term that LOOKS like an
+    /// identity (every component plain, genus 0, same tangle on both ends) but is not one: some component is a
+    /// connected surface over two or more arcs (strips joined by a tube)
+    fn tube_factor(c: &C, k0: &TngKey, k1: &TngKey) -> bool {
+        let looks_id_but_tube = |f: &LcCob<Rg>| f.iter().any(|(cob, _)|
+            !cob.is_empty()
+            && cob.comps().all(|x| !x.is_closed() && x.is_plain() && x.genus() == 0 && x.src() == x.tgt())
+            && cob.comps().any(|x| x.src().ncomps() >= 2));
+        if !c.contains_key(k0) || !c.contains_key(k1) || !c.keys_out_from(k0).any(|l| l == k1) { return false }
+        let Some(ainv) = c.edge(k0, k1).inv() else { return false };
+        let has_b = c.keys_into(k1).any(|l0| l0 != k0);
+        let has_c = c.keys_out_from(k0).any(|l1| l1 != k1);
+        if !has_b || !has_c { return false }
+        c.keys_into(k1).any(|l0| l0 != k0 && looks_id_but_tube(c.edge(l0, k1)))
+        || c.keys_out_from(k0).any(|l1| l1 != k1 && (looks_id_but_tube(c.edge(k0, l1))
+            || guard(|| c.edge(k0, l1) * &ainv).map(|x| looks_id_but_tube(&x)).unwrap_or(false)))
     }
     fn ct_txt(x: &Crossing) -> &'static str { match x.ctype() { CrossingType::X => "X", CrossingType::Xm => "Xm", CrossingType::V => "V", CrossingType::H => "H" } }
 
@@ -1305,6 +1322,11 @@ mod $name {
             self.emit(if expect_panic { "dl-bad" } else { "dl" }, format!("eg dl {} {} {}", i, key_txt(k), r), reply);
         }
         pub fn el(&mut self, i: usize, k0: &TngKey, k1: &TngKey, expect_panic: bool) {
+            // coverage: does this step stack a "tube" (see `tube_factor`)?
+            if !expect_panic && tube_factor(&self.slots[&i], k0, k1) {
+                self.s.count("eng.el.stacks-tube(connected surface over the same arcs on both ends)");
+                if std::env::var("C05_TRACE_TUBE").is_ok() { eprintln!("TUBE ring={} step={} el {} {}", TAG, self.steps, key_txt(k0), key_txt(k1)); }
+            }
             let c = self.slots.get_mut(&i).unwrap();
             let reply = match guard(|| c.eliminate(k0, k1)) { Some(_) => dump(c), None => { if !expect_panic { self.dead = true; } "panic".into() } };
             self.emit(if expect_panic { "el-bad" } else { "el" }, format!("eg el {} {} {}", i, key_txt(k0), key_txt(k1)), reply);
@@ -1488,6 +1510,44 @@ mod $name {
         s.count("eng.scripts");
     }
 
+    fn key_of(t: &str) -> TngKey {
+        let (st, lb) = t.split_once('.').unwrap();
+        TngKey {
+            state: State::from_iter(st.chars().map(|c| if c == '1' { 1u8 } else { 0u8 })),
+            label: KhLabel::from_iter(lb.chars().map(|c| if c == 'X' { KhAlgGen::X } else { KhAlgGen::I })),
+        }
+    }
+
+    /// hand-written script on an OPEN tangle (four of the six crossings of a diagram) whose last elimination is a
+    /// second-round elimination in which the composite `c ∘ a⁻¹` has a term that is a CONNECTED genus-0 surface over
+    /// the same two circles on both ends (two cylinders joined by a tube; coefficient 2, so it vanishes over 𝔽₂):
+    /// every component then looks like an identity although the cobordism is not one — `Cob::stack` must not
+    /// shortcut it.  The detector `tube_factor` confirms that the configuration is reached (`eng.tube-script.hit`).
+    pub fn tube_script(s: &mut Sink) {
+        let mut run = Run::new(s, (of(0), of(0)));
+        run.init(0, (0, -1), None);
+        let x = |e: [usize; 4]| Crossing::from_pd_code(e);
+        run.app(0, &x([3, 8, 4, 5]));
+        run.app(0, &x([12, 8, 9, 7]));
+        run.app(0, &x([4, 12, 1, 11]));
+        for (kind, a, b, r) in [("dl", "100.", "", 3), ("el", "100.I", "110.", 0), ("el", "000.", "100.X", 0)] {
+            if run.dead { return }
+            if kind == "dl" { run.dl(0, &key_of(a), r, false) } else { run.el(0, &key_of(a), &key_of(b), false) }
+        }
+        if run.dead { return }
+        run.app(0, &x([9, 3, 10, 2]));
+        for (kind, a, b, r) in [("dl", "0110.", "", 3), ("dl", "0100.", "", 3), ("el", "0100.I", "1010.", 0)] {
+            if run.dead { return }
+            if kind == "dl" { run.dl(0, &key_of(a), r, false) } else { run.el(0, &key_of(a), &key_of(b), false) }
+        }
+        if run.dead { return }
+        let (k0, k1) = (key_of("0010."), key_of("0110.X"));
+        let hit = run.slots[&0].contains_key(&k0) && tube_factor(&run.slots[&0], &k0, &k1);
+        run.s.count(if hit { "eng.tube-script.hit" } else { "eng.tube-script.MISSED-configuration" });
+        run.el(0, &k0, &k1, false);
+        if !run.dead { run.query(0); }
+    }
+
     /// scripts that end in a rejected request: `fin` before everything is delooped, `connect` with two base points
     pub fn rejected(s: &mut Sink, r: &mut Rng) {
         let l = Link::trefoil();
@@ -1525,6 +1585,7 @@ mod $name {
     /// third of them), then `n_scripts` random diagrams
     pub fn stream(s: &mut Sink, r: &mut Rng, thorough: bool, cases: &[Case], hts: &[(Rg, Rg)], corpus: bool, n_scripts: usize, n_big: usize) {
         rejected(s, r);
+        tube_script(s);
         for c in cases.iter().take(12) {
             if c.link.data().len() > 5 { continue }
             for ht in hts {
